@@ -29,3 +29,16 @@ def run(ctx, prefix, rand_n):
     kernel.account(ctx, rows, nontrivial)
     ctx.exhaustive = True
     return rows
+
+
+def run_blocks(ctx, prefix, rand_n):
+    """The multi-record part only (menu blocks + random blocks): `sam variants` on SAM blocks against toPairAlign+variants
+    (C11) and against the mutations of the declarative pair (C05); used by the C11 and C05 checks next to their own pass."""
+    vecs = kernel.tlc_gen(ctx, "GenC01", "GenC01.cfg" if ctx.quick else "GenC01_thorough.cfg", tag="blocks", timeout=3000)
+    vecs = [v for v in vecs if not v["id"].startswith("one-")]
+    vecs += kernel.rand_vectors(ctx, "sam", rand_n, tag="blocks")
+    obs = kernel.run_vectors(ctx, "sam", vecs, tag="blocks", timeout=6000)
+    n0 = len(ctx.failures)
+    rows, fails, _ = kernel.validate_obs(ctx, "ObsSam", "ObsSam.cfg", obs, tag="blocks", timeout=6000)
+    ctx.failures = ctx.failures[:n0] + [f for f in ctx.failures[n0:] if f["clause"].startswith(prefix) or f["clause"] in ("panic", "timeout")]
+    kernel.account(ctx, rows, nontrivial)
